@@ -1,7 +1,8 @@
 (* C05 — HDF5-era lazy and concatenated indexers equal composed outer indexing.  Only statements here. *)
 From Coq Require Import ZArith List Bool.
 From KV Require Import Base.Sx Base.PySlice Base.AxisIndex Base.NdArray Base.LazyDType Gen.Generated
-  Model.LazyIdx Model.LazyNd Model.ConcatIdx Model.LazyKeep Proofs.LazyIdxP Proofs.LazyNdP Proofs.ConcatIdxP Proofs.LazyKeepP.
+  Model.LazyIdx Model.LazyNd Model.ConcatIdx Model.LazyKeep Model.LazyHist Proofs.LazyIdxP Proofs.LazyNdP Proofs.ConcatIdxP Proofs.LazyKeepP
+  Proofs.LazyHistP.
 Import ListNotations.
 Open Scope Z_scope.
 
@@ -456,3 +457,135 @@ Theorem C05_concat_scalar_out_of_range_rejected : forall ps dt total S z tail, 0
   c_head ps dt total S (AInt z) tail = Err.
 Proof. exact concat_scalar_out_of_range_rejected. Qed.
 Print Assumptions C05_concat_scalar_out_of_range_rejected.
+
+(* ====================================================================== Round 7: the indexer as an object with state,
+   read many times; the requests it sends to its dataset (Model/LazyHist.v, Proofs/LazyHistP.v) *)
+
+(* the pieces of LazyIndexer.__getitem__ that decide about memory, regenerated from the source at every run: the
+   post-selection offsets are `dim_keep - dim_keep[0]` computed into a NEW array (not inside dim_keep, which may be a
+   view of self._lookup or the caller's own index array); the only objects stored through are the output buffer and the
+   local bookkeeping lists; what is returned is the np.empty buffer or one element read with scalars *)
+Theorem C05_getitem_memory_discipline :
+  (forall x first, lazy_post_offset x first = x - first) /\ lazy_post_inplace = false
+  /\ Forall (fun c => c = 0 \/ c = 1) lazy_getitem_writes /\ result_fresh = true.
+Proof. exact (conj post_offset_is_difference (conj post_not_inplace (conj getitem_writes_local result_is_fresh))). Qed.
+Print Assumptions C05_getitem_memory_discipline.
+
+(* C05_reads_preserve_state (full): one __getitem__ - any indexer, dataset, index, np.empty content; answered or
+   rejected - leaves self._lookup and every index object of the caller exactly as they were, and its answer is the pure
+   function of (indexer, dataset, index) that C05_getitem_nd is about *)
+Theorem C05_reads_preserve_state : forall garbage li ds ixs,
+  read_st lazy_post_inplace garbage li ds ixs
+  = (getitem_nd garbage li ds ixs, li, pad_to (List.length (li_shape li)) ixs).
+Proof. exact read_preserves_state. Qed.
+Print Assumptions C05_reads_preserve_state.
+
+(* C05_history (full): ANY sequence of reads through one indexer, between which the caller may overwrite the arrays it
+   was handed, is answered request by request by the pure function; indexer and dataset are unchanged at the end *)
+Theorem C05_history : forall garbage li ds evs,
+  run_history lazy_post_inplace result_fresh garbage li ds evs
+  = (map (getitem_nd garbage li ds) (reads_of evs), (li, ds)).
+Proof. exact history_pure. Qed.
+Print Assumptions C05_history.
+
+(* the answer to a request does not depend on the requests before it (repeating a request repeats the answer) *)
+Theorem C05_history_prefix_irrelevant : forall garbage li ds pre ixs,
+  last (fst (run_history lazy_post_inplace result_fresh garbage li ds (pre ++ [ERead ixs]))) Err
+  = getitem_nd garbage li ds ixs.
+Proof. exact history_prefix_irrelevant. Qed.
+Print Assumptions C05_history_prefix_irrelevant.
+
+(* every answer given anywhere in a history is the property's answer for its own request *)
+Theorem C05_history_spec : forall garbage shape ds k1 ts dt li a1 evs,
+  Forall (fun d => 0 <= d) shape -> (forall sh, shaped sh (garbage sh)) ->
+  mk_lazy shape k1 ts dt = Ok li ->
+  oindex_keep (mk_nd shape ds) k1 = Ok a1 ->
+  Forall2 (fun ixs a => forall out, a = Ok out -> spec_getitem shape ds k1 ts dt ixs = Ok out)
+          (reads_of evs) (fst (run_history lazy_post_inplace result_fresh garbage li ds evs))
+  /\ snd (run_history lazy_post_inplace result_fresh garbage li ds evs) = (li, ds).
+Proof. exact history_spec. Qed.
+Print Assumptions C05_history_spec.
+
+(* non-vacuity: the state model CAN express the hazard.  With the offsets computed in place the second identical
+   request is answered with other elements (through a view of the lookup), the caller's index array is overwritten,
+   and an answer that were a view of the dataset would let the caller's write through; the real flags give equal answers *)
+Theorem C05_history_example :
+  fst (run_history true true hist_g hist_li hist_ds [ERead [full]; ERead [full]])
+  = [Ok (mk_arr 0 (mk_nd [6] (Node (map Leaf [1; 2; 4; 5; 7; 8])))); Ok (mk_arr 0 (mk_nd [6] (Node (map Leaf [0; 1; 3; 4; 6; 7]))))]
+  /\ li_lookup (fst (snd (run_history true true hist_g hist_li hist_ds [ERead [full]]))) = [Some [0; 1; 3; 4; 6; 7]]
+  /\ snd (read_st true hist_g (mk_lazyidx [10] [None] [] 0) hist_ds [AList [1; 2; 4; 5; 7; 8]]) = [AList [0; 1; 3; 4; 6; 7]]
+  /\ fst (run_history lazy_post_inplace result_fresh hist_g hist_li hist_ds [ERead [full]; EScribble 9; ERead [full]])
+     = [Ok (mk_arr 0 (mk_nd [6] (Node (map Leaf [1; 2; 4; 5; 7; 8])))); Ok (mk_arr 0 (mk_nd [6] (Node (map Leaf [1; 2; 4; 5; 7; 8]))))]
+  /\ fst (run_history false false hist_g hist_li hist_ds [ERead [full]; EScribble 9; ERead [full]])
+     = [Ok (mk_arr 0 (mk_nd [6] (Node (map Leaf [1; 2; 4; 5; 7; 8])))); Ok (mk_arr 0 (mk_nd [6] (Node (map Leaf [9; 9; 9; 9; 9; 9]))))].
+Proof. exact inplace_breaks_history. Qed.
+Print Assumptions C05_history_example.
+
+(* C05_requests_plain (full): whatever the plans, every dataset[...] request of the chunk loop (and of the all-scalar
+   short cut) has one item per axis and contains NO index list - h5py allows at most one per request *)
+Theorem C05_requests_plain : forall plans rq, In rq (requests plans) ->
+  fancy_count rq = 0 /\ List.length rq = List.length plans.
+Proof. exact requests_plain. Qed.
+Print Assumptions C05_requests_plain.
+
+(* C05_advanced_requests_inside (full): for masks and integer sequences every slice sent to the dataset has step 1, is
+   non-empty (HDF5 has no zero-length selection: an empty selection reads slice(0, 1, 1) and drops it afterwards) and
+   ends inside the axis *)
+Theorem C05_advanced_requests_inside : forall n m p, 0 <= n ->
+  (match m with MMask _ | MArr _ => True | _ => False end) ->
+  axis_plan n m = Ok p -> exists segs, p = PSegs segs /\ Forall (seg_inside n) segs.
+Proof. exact axis_plan_adv_inside. Qed.
+Print Assumptions C05_advanced_requests_inside.
+
+(* a slice is handed to the dataset with the step the user wrote, normalised by slice.indices *)
+Theorem C05_slice_request : forall n a b c p, axis_plan n (MSlice a b c) = Ok p ->
+  exists s e, p = PSegs [mk_seg s e (match c with Some st => st | None => 1 end) PAll 0
+                                (range_len s e (match c with Some st => st | None => 1 end))]
+              /\ slice_indices n a b c = Some (s, e, match c with Some st => st | None => 1 end).
+Proof. exact slice_plan_step. Qed.
+Print Assumptions C05_slice_request.
+
+(* C05_h5_requests_accepted (full): for every constructible indexer, dataset content and second-stage index without a
+   negative slice step, if the indexer answers then EVERY request it sent is one h5py accepts (integers in [-n, n),
+   slice steps >= 1, no index list) *)
+Theorem C05_h5_requests_accepted : forall garbage shape k1 ts dt li ds ixs out rqs,
+  Forall (fun d => 0 <= d) shape -> (forall sh, shaped sh (garbage sh)) ->
+  mk_lazy shape k1 ts dt = Ok li ->
+  Forall ix_pos_step ixs ->
+  getitem_nd garbage li ds ixs = Ok out ->
+  lazy_requests li ixs = Ok rqs ->
+  Forall (fun rq => h5_accepts (li_shape li) rq = true /\ fancy_count rq = 0) rqs.
+Proof. exact lazy_requests_accepted. Qed.
+Print Assumptions C05_h5_requests_accepted.
+
+(* C05_h5_same_answers (full): an HDF5 dataset as source adds no rejection and changes no answer *)
+Theorem C05_h5_same_answers : forall garbage shape k1 ts dt li ds ixs,
+  Forall (fun d => 0 <= d) shape -> (forall sh, shaped sh (garbage sh)) ->
+  mk_lazy shape k1 ts dt = Ok li ->
+  Forall ix_pos_step ixs ->
+  getitem_h5 garbage li ds ixs = getitem_nd garbage li ds ixs.
+Proof. exact getitem_h5_same. Qed.
+Print Assumptions C05_h5_same_answers.
+
+(* the guard is needed (h5py side of the open finding F30): a negative step is a request h5py refuses - rejected,
+   never answered - where an ndarray source answers *)
+Theorem C05_h5_negative_step_refuted :
+  getitem_h5 hist_g (mk_lazyidx [5] [None] [] 0) (arange [5] 0) [ASlice (Some 3) (Some 0) (Some (-1))] = Err
+  /\ getitem_nd hist_g (mk_lazyidx [5] [None] [] 0) (arange [5] 0) [ASlice (Some 3) (Some 0) (Some (-1))]
+     = Ok (mk_arr 0 (mk_nd [3] (Node (map Leaf [3; 2; 1]))))
+  /\ lazy_requests (mk_lazyidx [5] [None] [] 0) [ASlice (Some 3) (Some 0) (Some (-1))] = Ok [[RSlice 3 0 (-1)]].
+Proof. exact h5_negative_step_rejected. Qed.
+Print Assumptions C05_h5_negative_step_refuted.
+
+Theorem C05_requests_example :
+  lazy_requests (mk_lazyidx [10; 20] [None; None] [] 0) [AList [1; 2; 4; 5]; AList [0; 1; 7]]
+  = Ok [[RSlice 1 6 1; RSlice 0 2 1]; [RSlice 1 6 1; RSlice 7 8 1]]
+  /\ lazy_requests (mk_lazyidx [10; 20] [None; None] [] 0) [AInt (-1); AList []] = Ok [[RInt (-1); RSlice 0 1 1]]
+  /\ lazy_requests (mk_lazyidx [10; 20] [None; None] [] 0) [AInt 3; AInt (-2)] = Ok [[RInt 3; RInt (-2)]]
+  /\ h5_accepts [10; 20] [RSlice 1 6 1; RSlice 7 8 1] = true
+  /\ h5_accepts [10; 20] [RList [1; 2; 4; 5]; RList [0; 1; 7]] = false
+  /\ h5_accepts [10; 20] [RList [1; 2; 4; 5]; RSlice 0 2 1] = true
+  /\ h5_accepts [10; 20] [RList [2; 1]; RSlice 0 2 1] = false
+  /\ h5_accepts [10; 20] [RInt 10; RSlice 0 2 1] = false.
+Proof. exact requests_example. Qed.
+Print Assumptions C05_requests_example.
